@@ -81,7 +81,7 @@ def answer (fn : String) (bytes : List UInt8) (a1 a2 : Option Nat) : String :=
   | "findheader" =>
     showLoop (fun r => s!"found={r.sev} ") (findHeaderSectionWith C05.skipInstanceSkipsComments C05.readCommentIters C05.findHeaderGetlineN C05.findHeaderExit fuel (IS.ofBytes bytes))
   | "readdata1" =>
-    showData (readData1 ⟨fun _ => false, knownC05a, fun _ => false⟩ C05.entNmArrGuard C05.skipInstanceSkipsComments false C05.readCommentIters
+    showData (readData1 ⟨fun _ => false, knownC05a, fun _ => false⟩ C05.imbedAggrStaysInRecord C05.entNmArrGuard C05.skipInstanceSkipsComments false C05.readCommentIters
       C05.maxErrorCount fuel (IS.ofBytes bytes))
   | "getkeyword" =>
     showLoop (fun r => s!"len={r.len} ") (getKeyword ";( /\\".toUTF8.toList fuel (IS.ofBytes bytes))
@@ -92,7 +92,7 @@ def answer (fn : String) (bytes : List UInt8) (a1 a2 : Option Nat) : String :=
   | "append1" =>
     -- pass 1 of `AppendFile` (no file name: the second pass cannot open its stream)
     showLoop (fun r => s!"cnt={r.len} ") (appendFile1 ⟨fun _ => false, knownC05a, fun _ => false⟩ (fun _ => false)
-      (fun _ s => .ok ⟨s, 0, 0, 0⟩) C05.entNmArrGuard C05.skipInstanceSkipsComments true C05.readCommentIters
+      (fun _ s => .ok ⟨s, 0, 0, 0⟩) C05.imbedAggrStaysInRecord C05.entNmArrGuard C05.skipInstanceSkipsComments true C05.readCommentIters
       C05.findHeaderGetlineN C05.findHeaderExit C05.maxErrorCount fuel (IS.ofBytes bytes))
   | "finddata" =>
     showLoop (fun r => s!"found={r.sev} ") (findDataSection C05.skipInstanceSkipsComments C05.readCommentIters fuel (IS.ofBytes bytes))
@@ -106,9 +106,9 @@ def answer (fn : String) (bytes : List UInt8) (a1 a2 : Option Nat) : String :=
         | o => some s!"{nm}: assign={a} elements={k} exit={repr e} -> {repr o}").head?)
     if bad.isEmpty then "ok safe" else "unsafe " ++ String.intercalate "; " bad
   | "subsuperb" =>
-    showLoop (fun _ => "") (createSubSuper C05.entNmArrGuard fuel (IS.ofBytes bytes))
+    showLoop (fun _ => "") (createSubSuper C05.imbedAggrStaysInRecord C05.entNmArrGuard fuel (IS.ofBytes bytes))
   | "readdata1w" =>
-    showData (readData1 ⟨fun _ => false, knownC05a, fun _ => false⟩ C05.entNmArrGuard C05.skipInstanceSkipsComments true C05.readCommentIters
+    showData (readData1 ⟨fun _ => false, knownC05a, fun _ => false⟩ C05.imbedAggrStaysInRecord C05.entNmArrGuard C05.skipInstanceSkipsComments true C05.readCommentIters
       C05.maxErrorCount fuel (IS.ofBytes bytes))
   | "recover" =>
     showLoop (fun _ => "") (stepReadNoAttrs C05.recoveryScanStaysInRecord C05.recoveryScanPutsBackSemi C05.skipInstanceSkipsComments
